@@ -7,12 +7,15 @@ claimed = {
  "C03": ("Assertions on the real output alone (offset bounds, Value==text[Start:End], order, non-overlap, MatchNumber, line/column recomputed from the symbolic text, variables substrings) for every text up to the bound, all 256 byte values for the offset claims.", "5/C03"),
  "C04": ("Relational check on the real engine: the five amount clauses with symbolic s,t,n in [0,4] must return windows of the sequence found by 'all', field by field incl. MatchNumber; amount parsing checked on the real lexer/parser with symbolic digits.", "5/C04"),
  "C05": ("Replacement compared with the concatenation of the with-items evaluated on the same match record for every text up to the bound; replace vs find agreement.", "5/C05"),
+ "C06": ("The real RunFiles is executed symbolically over a model file system (os calls redirected to an in-memory model honouring the POSIX/io contracts) for every file content up to the bound, symbolic replace mode and a stale .vored file; the final file system is compared with the exact splice and the per-mode footprint.", "5/C06"),
+ "C07": ("One inductive step of the real BufferedFile.Seek/Read from an arbitrary invariant-satisfying window state over an abstract file of symbolic size (covers every file size below 2^40 and every seek/read history), NewBufferedFile and files.Reader lemmas, and whole-pipeline agreement RunFiles vs Run for small files.", "5/C07"),
  "C08": ("Every implicit run-time check of the real lexer, parser, regex sub-parser and generator is a solver query over arbitrary bytes / arbitrary token-type sequences up to the bound (plus corpus prefixes reaching deep states); hangs are unwinding-assertion failures; accepted ASTs are walked for holes.", "5/C08"),
  "C09": ("Every implicit run-time check (index, slice, nil, division, type assertion) and explicit panic of the real code is a solver query on every explored path; boundary programs x all texts up to the bound.", "5/C09"),
  "C10": ("Unwinding assertion on the real VM loop: every path over the nullable-body family must return within a budget two orders of magnitude above the measured maximum; exhausted budgets are replayed natively under a timeout.", "5/C10"),
  "C11": ("The real evaluator (executeExpression) is executed symbolically against the documented operator/coercion table with symbolic operator, operand kinds and values (64-bit ints, symbolic strings, bools); the real Pratt parser is checked against the documented precedence levels for all operator sequences up to the bound.", "5/C11"),
  "C12": ("The real checker is compared with the documented typing table (accept iff listed, inferred type, accepted code evaluates to that type) for every operator x operand-type combination, and with a reference statement checker over skeleton x expression-menu programs in both contexts through the real Compile.", "5/C12"),
  "C16": ("The real lexer on quote + arbitrary ASCII bytes + quote (every spelling of every string that fits the bound) against refUnescape; API level: the compiled literal matches exactly the spelled text among all texts of that length.", "5/C16"),
+ "C20": ("The real segment matcher against the recursive definition of '*' with every pattern/name byte symbolic, and the real ParsePath/GetFileList over the model file system with symbolic entry names and is-directory bits.", "5/C20"),
  "C13": ("Relational check real-vs-real: named (inline subroutine / global pattern) and written-out sources must give equal matches on every text up to the bound; repeated Run, recompilation, and a write-footprint check (bytecode frozen during Run).", "5/C13"),
 }
 na = {
